@@ -1044,16 +1044,17 @@ theorem inputItem_iso (i : StoredInput) : inputItem (mapC ρ t c) i = inputItem 
 theorem variableType_iso (v : RVariable) : variableType (mapC ρ t c) v = variableType c v := by
   simp only [variableType, mapC_s, mapC_o, mapC_cs, h.typeName]
 
-theorem literalOk_iso (fuel : Nat) : ∀ (v : Value) (ty : TypeId), literalOk t fuel v ty = literalOk c.s fuel v ty := by
+theorem literalOk_iso (fuel : Nat) : ∀ (v : Value) (ty : TypeId) (quals : List Qual),
+    literalOk t fuel v ty quals = literalOk c.s fuel v ty quals := by
   induction fuel with
-  | zero => intro _ _; rfl
+  | zero => intro _ _ _; rfl
   | succ fuel ih =>
-    intro v ty
+    intro v ty quals
     cases v <;> simp only [literalOk, h.getInput, ih]
 
 theorem variablesItems_iso (op : Nat) : variablesItems (mapC ρ t c) op = variablesItems c op := by
   have h1 : variableType (mapC ρ t c) = variableType c := by funext v; exact variableType_iso c h v
-  have h2 : literalOk t = literalOk c.s := by funext f v ty; exact literalOk_iso c h f v ty
+  have h2 : literalOk t = literalOk c.s := by funext f v ty quals; exact literalOk_iso c h f v ty quals
   simp only [variablesItems, mapC_s, mapC_q, mapC_o, mapC_cs, opVariables_map, h1, h2]
   rfl
 
